@@ -191,6 +191,47 @@ func runC14(c *eng.Ctx) {
 			[]string{"pkg/encoding.NewTSDEncoder", "pkg/encoding.TSDEncoder.RestWithStartTime"}, 2)
 	})
 
+	// a pooled decoder held by a reader goes back to the pool exactly once
+	c.Rule("TYPESTATE", "pkg/encoding{a holder releases its pooled object in one method that no other method of it calls}", func() {
+		byType := map[string]map[string]bool{}
+		for _, fn := range p.FuncsWithPrefix("pkg/encoding.") {
+			if fn.Signature.Recv() == nil || fn.Parent() != nil {
+				continue
+			}
+			for _, s := range p.SitesDirect(fn, eng.CallTo("pkg/encoding.ReleaseTSDDecoder", "pkg/encoding.ReleaseTSDEncoder")) {
+				arg := eng.CallArgs(s.Instr.(ssa.CallInstruction))[0]
+				if !eng.DependsOn(arg, func(x ssa.Value) bool { return x == ssa.Value(fn.Params[0]) }) {
+					continue
+				}
+				k := p.FuncKey(fn)
+				t := k[:strings.LastIndex(k, ".")]
+				if byType[t] == nil {
+					byType[t] = map[string]bool{}
+				}
+				byType[t][k] = true
+			}
+		}
+		c.Check(len(byType) >= 1, "holders-found", nil, nil, "some type of pkg/encoding holds a pooled decoder / encoder in a field", fmt.Sprintf("%d", len(byType)))
+		for t, rel := range byType {
+			c.Check(len(rel) == 1, "one-releasing-method:"+t, nil, nil, "the held object is released by exactly one method", keysOfBool(rel))
+			for k := range rel {
+				r := c.Fn(k)
+				for _, fn := range p.FuncsWithPrefix(t + ".") {
+					if fn == r {
+						continue
+					}
+					for _, s := range p.Sites(fn, func(_ *eng.Prog, in ssa.Instruction) bool {
+						cl, ok := in.(ssa.CallInstruction)
+						return ok && cl.Common().StaticCallee() == r
+					}) {
+						c.Check(false, "release-not-called-internally:"+p.FuncKey(fn), s.Instr, fn,
+							"the releasing method is called by the owner of the reader only (its documented Close), never by another method of the reader: a second release puts one object into the pool twice and two later users share it", "calls "+k)
+					}
+				}
+			}
+		}
+	})
+
 	// an empty block is a legal block
 	c.Rule("GUARD", "pkg/encoding.FixedOffsetDecoder.GetBlock{empty range accepted}", func() { emptyBlockAccepted(c) })
 }
